@@ -161,7 +161,7 @@ var lgNameSchemes = [][5]string{
 	{"Get", "GetParallel", "Put", "PutParallel", "Scan"},
 }
 
-var lgCustomUnits = []string{"allocs/op", "B/op", "widgets", "ns/GC", "req/s", "bytes/op", "pkg-ns/op"}
+var lgCustomUnits = []string{"allocs/op", "B/op", "widgets", "ns/GC", "req/s", "bytes/op", "pkg-ns/op", "disk-MB/s", "ns/frame-halfspeed", "stalls/overspeed"}
 var lgLabelKeys = []string{"pkg", "goos", "cfg"}
 var lgLabelVals = [][2]string{{"a", "b"}, {"x/y", "x/z"}, {"linux", "darwin"}}
 var lgConfigNames = [][3]string{
